@@ -273,6 +273,136 @@ theorem c01_error_sendfile (g : Cfg) (s : S) (off len : Nat) (ks : List KAns) (h
           exact ⟨h1, p, h2, h3.acc, h3.wire⟩
         · rename_i hf; rw [if_neg hf] at he; simp at he
 
+/-! ### Sendfile while dup(2) of the source descriptor fails -/
+
+theorem denyDup_cons (k : KAns) (ks : List KAns) :
+    denyDup (k :: ks) = denyDup1 k :: denyDup ks := by
+  simp [denyDup]
+
+theorem kwf_denyDup {ks : List KAns} (h : KWF ks) : KWF (denyDup ks) := by
+  intro k hk
+  simp only [denyDup, List.mem_append, List.mem_map, List.mem_singleton] at hk
+  rcases hk with ⟨k', hk', rfl⟩ | rfl
+  · have := h k' hk'
+    cases k' <;> simp_all [denyDup1]
+  · simp
+
+/-- a call of `Sendfile` during which dup(2) fails is a stutter or the op `.sendfile off len (denyDup ks)` of the
+    alphabet: every theorem over `run` / `Reach` covers it -/
+theorem sendfileNoDup_step (g : Cfg) (s : S) (off len : Nat) (ks : List KAns) :
+    (sendfileNoDupOp g s off len ks).1 = s ∨
+    (sendfileNoDupOp g s off len ks).1 = step g s (.sendfile off len (denyDup ks)) := by
+  unfold sendfileNoDupOp
+  split
+  · exact Or.inl rfl
+  · exact Or.inr rfl
+
+theorem reach_sendfileNoDup {g : Cfg} {s : S} (h : Reach g s) (off len : Nat) (ks : List KAns) :
+    Reach g (sendfileNoDupOp g s off len ks).1 := by
+  rcases sendfileNoDup_step g s off len ks with e | e <;> rw [e]
+  · exact h
+  · exact reach_step h _
+
+/-- without a duplicate of the descriptor the direct loop can not queue the rest of the range: it ends with
+    the queue it found, or with a fatal error -/
+theorem sendfileLoop_denyDup_wl (g : Cfg) (ks : List KAns) : ∀ (s : S) (off rem : Nat),
+    (sendfileLoop g s off rem (denyDup ks)).2 = false →
+    (sendfileLoop g s off rem (denyDup ks)).1.wl = s.wl ∧ (sendfileLoop g s off rem (denyDup ks)).1.closed = s.closed := by
+  induction ks with
+  | nil =>
+    intro s off rem h
+    have e : denyDup [] = [.fail] := by simp [denyDup]
+    rw [e] at h ⊢
+    unfold sendfileLoop at h ⊢
+    by_cases h0 : rem = 0
+    · simp [h0]
+    · simp [h0] at h
+  | cons k ks ih =>
+    intro s off rem h
+    rw [denyDup_cons] at h ⊢
+    unfold sendfileLoop at h ⊢
+    by_cases h0 : rem = 0
+    · simp [h0]
+    · rw [if_neg h0] at h ⊢
+      cases k with
+      | eagain => simp [denyDup1] at h
+      | fail => simp [denyDup1] at h
+      | eintr => exact ih s off rem h
+      | wrote n0 =>
+        simp only [denyDup1] at h ⊢
+        by_cases hn : min n0 (min maxSendfile rem) = 0
+        · simp [hn]
+        · rw [if_neg hn] at h ⊢
+          exact ih _ _ _ h
+
+/-- **C01 (Sendfile, dup(2) fails).** Fixed code. A call that returns no error reports the whole range, the
+    range is appended to the accepted stream and nothing of it is queued (the queue and the open/closed flag are
+    as found): by `c01_integrity` all of it is on the wire. A call that returns an error reports 0 and either
+    left the connection exactly as it was (the call came behind a backlog) or closed it, having transmitted
+    precisely what it added to the accepted stream. (Pinned code: after EAGAIN the remainder was dropped and
+    the whole range reported as sent, `corpus/conn/defects.ops`.) -/
+theorem c01_sendfile_nodup (g : Cfg) (s : S) (off len : Nat) (ks : List KAns) (hr : Reach g s) (hk : KWF ks) :
+    let r := sendfileNoDupOp g s off len ks
+    (r.2.err = .none →
+      r.2.n = sendRange g off len ∧ r.1.accepted = s.accepted ++ fileRange g off (sendRange g off len) ∧
+      r.1.wl = s.wl ∧ r.1.closed = s.closed) ∧
+    (r.2.err ≠ .none →
+      r.2.n = 0 ∧ (r.1 = s ∨ (r.1.closed = true ∧ ∃ p, p <+: fileRange g off (sendRange g off len) ∧
+        r.1.accepted = s.accepted ++ p ∧ r.1.wire = s.wire ++ p))) := by
+  have hd := (reach_inv hr).1
+  intro r
+  show (_ → _) ∧ (_ → _)
+  by_cases hb : (!s.hung && !s.closed && sendRange g off len != 0 && !s.wl.isEmpty) = true
+  · have e : r = (s, ⟨0, .io⟩) := by simp only [r, sendfileNoDupOp, hb, if_true]
+    rw [e]
+    exact ⟨fun h => by simp at h, fun _ => ⟨rfl, Or.inl rfl⟩⟩
+  · have e : r = sendfileOp g s off len (denyDup ks) := by simp only [r, sendfileNoDupOp, hb]; rfl
+    rw [e]
+    have e1 : (sendfileOp g s off len (denyDup ks)).2 = (sendfile g s off len (denyDup ks)).2 := rfl
+    have ea : (sendfileOp g s off len (denyDup ks)).1.accepted = (sendfile g s off len (denyDup ks)).1.accepted := rfl
+    have ew : (sendfileOp g s off len (denyDup ks)).1.wire = (sendfile g s off len (denyDup ks)).1.wire := rfl
+    have el : (sendfileOp g s off len (denyDup ks)).1.wl = (sendfile g s off len (denyDup ks)).1.wl := rfl
+    have ec : (sendfileOp g s off len (denyDup ks)).1.closed = (sendfile g s off len (denyDup ks)).1.closed := rfl
+    refine ⟨fun he => ?_, fun he => ?_⟩
+    · rw [e1] at he ⊢
+      rw [ea, el, ec]
+      obtain ⟨h1, h2, _⟩ := c01_return_sendfile g s off len (denyDup ks) hr (kwf_denyDup hk) he
+      refine ⟨h1, h2, ?_⟩
+      unfold sendfile at he ⊢
+      rw [if_neg (by simp [hd.nohang])] at he ⊢
+      by_cases hc : s.closed = true
+      · rw [if_pos hc] at he; simp at he
+      · rw [if_neg hc] at he ⊢
+        simp only at he ⊢
+        by_cases h0 : sendRange g off len = 0
+        · rw [if_pos h0]; exact ⟨rfl, rfl⟩
+        · rw [if_neg h0] at he ⊢
+          have hq : (!s.wl.isEmpty) = false := by
+            simp only [hd.nohang, Bool.not_false, Bool.true_and] at hb
+            cases hw : s.wl.isEmpty <;> simp_all
+          rw [if_neg (by simp [hq])] at he ⊢
+          by_cases hf : (sendfileLoop g s off (sendRange g off len) (denyDup ks)).2 = true
+          · rw [if_pos hf] at he; simp at he
+          · rw [if_neg hf]
+            exact sendfileLoop_denyDup_wl g ks s off _ (by simpa using hf)
+    · rw [e1] at he ⊢
+      rw [ea, ew, ec]
+      have h := c01_error_sendfile g s off len (denyDup ks) hr he
+      refine ⟨?_, Or.inr h⟩
+      unfold sendfile at he ⊢
+      split
+      · rfl
+      · split
+        · rfl
+        · simp only at he ⊢
+          split
+          · rfl
+          · split
+            · simp_all
+            · split
+              · rfl
+              · simp_all
+
 /-- **C01 (no interleaving, order).** Every step appends one block to the accepted stream and one block
     to the wire; handling an event (flush) accepts nothing. Since each call is one step (the whole method
     runs under the connection mutex), the bytes of one call are contiguous in the accepted stream, and by
@@ -406,6 +536,32 @@ theorem step_reported (g : Cfg) (s : S) (op : Op) (hd : InvD g s) (ho : (step g 
         · rw [(c01_flush_transmits_only g s1 ks).1]; simpa using h1
       · simpa using h1
   | evEnd => show (evEnd g s).accepted = s.accepted ++ []; rw [accepted_evEnd]; simp
+  | evConnEnd =>
+    show (evConnEnd g s).accepted = s.accepted ++ []
+    unfold evConnEnd
+    split
+    · simp
+    · split
+      · have := D_cResetRead g { s with connecting := false, connEv := false }
+        simp only [D, Prod.mk.injEq] at this; simp [this.2.2.2.2.2]
+      · simp
+  | evRearm =>
+    show (evRearm g s).accepted = s.accepted ++ []
+    unfold evRearm
+    split
+    · simp
+    · split
+      · have := D_resetPollerEvent g { s with rearm := false }
+        simp only [D, Prod.mk.injEq] at this; simp [this.2.2.2.2.2]
+      · simp
+  | evErrClose =>
+    show (evErrClose s).accepted = s.accepted ++ []
+    unfold evErrClose
+    split
+    · simp
+    · split
+      · split <;> simp [flipWE, flip, stopTimer]
+      · simp
   | flipClosed =>
     show (flipClosed s).accepted = s.accepted ++ []
     unfold flipClosed; split <;> simp [flipWE, flip, stopTimer]
@@ -465,6 +621,19 @@ theorem c01_accepted_is_reported (g : Cfg) (ops : List Op) (hwf : OpsWF ops) :
 
 /-- a small configuration: LT, no bound, a 10-byte file 0,1,…,9 -/
 def g0 : Cfg := ⟨.lt, 0, 10, fun i => UInt8.ofNat i⟩
+
+/-- dup(2) fails: on the direct path the refused request closes the conn (3 bytes sent, 0 reported, nothing
+    queued); behind a backlog the call fails and changes nothing; a range the kernel takes whole is sent -/
+example :
+    let s0 := run g0 init [.register]
+    let a := sendfileNoDupOp g0 s0 0 0 [.wrote 3, .eagain]
+    let s1 := run g0 init [.register, .write [7, 8, 9] [.wrote 1]]
+    let b := sendfileNoDupOp g0 s1 2 4 []
+    let c := sendfileNoDupOp g0 s0 2 4 [.wrote 9]
+    a.2 = ⟨0, .io⟩ ∧ a.1.closed = true ∧ a.1.wire = [0, 1, 2] ∧ a.1.wl.length = 0 ∧
+    b.2 = ⟨0, .io⟩ ∧ b.1.closed = false ∧ b.1.wl.length = 1 ∧ b.1.left = 2 ∧ b.1.accepted = s1.accepted ∧
+    c.2 = ⟨4, .none⟩ ∧ c.1.closed = false ∧ c.1.wire = [2, 3, 4, 5] ∧ c.1.wl.length = 0 := by
+  decide
 
 /-- without the well-formedness the ghost and the reported stream can differ: sendfile(2) answering
     "0 bytes, no error" makes Sendfile report the whole range although nothing of the rest is sent or queued -/
